@@ -192,6 +192,7 @@ pub struct Reporter {
     known: Vec<(String, String)>,
     inner: Mutex<RepInner>,
     pub nviol: AtomicU64,
+    pub nknown: AtomicU64,
 }
 struct RepInner {
     known_hit: BTreeMap<String, (u64, String)>,
@@ -207,6 +208,7 @@ impl Reporter {
             known,
             inner: Mutex::new(RepInner { known_hit: BTreeMap::new(), unknown: BTreeMap::new() }),
             nviol: AtomicU64::new(0),
+            nknown: AtomicU64::new(0),
         }
     }
     /// `key` identifies the finding family (word, construct, call site ...); `case` is the
@@ -216,13 +218,14 @@ impl Reporter {
     }
     /// like `report`, but keeps the case with the smallest `weight` as the replay record
     pub fn report_w(&self, key: &str, weight: u64, case: impl FnOnce() -> J) {
-        self.nviol.fetch_add(1, Ordering::Relaxed);
         let mut g = self.inner.lock().unwrap();
         if let Some((_, what)) = self.known.iter().find(|(k, _)| k == key) {
+            self.nknown.fetch_add(1, Ordering::Relaxed);
             let e = g.known_hit.entry(key.to_string()).or_insert((0, what.clone()));
             e.0 += 1;
             return;
         }
+        self.nviol.fetch_add(1, Ordering::Relaxed);
         if let Some(e) = g.unknown.get_mut(key) {
             e.0 += 1;
             if weight < e.1 {
@@ -364,6 +367,7 @@ impl Evidence {
             ("assumptions".to_string(), J::A(self.assumptions.iter().map(|c| js(c.clone())).collect())),
             ("wall_s".to_string(), J::F(self.start.elapsed().as_secs_f64())),
             ("violations".to_string(), J::I(rep.nviol.load(Ordering::Relaxed) as i128)),
+            ("known_finding_cases".to_string(), J::I(rep.nknown.load(Ordering::Relaxed) as i128)),
         ]);
         let _ = std::fs::create_dir_all(format!("{}/evidence", VERIF));
         let path = format!("{}/evidence/{}.json", VERIF, self.prop);
@@ -376,7 +380,7 @@ pub fn conclude(ev: &Evidence, rep: &Reporter) -> i32 {
     let (code, findings) = rep.finish();
     ev.write(rep, findings);
     println!(
-        "{} {}: states={} transitions={} evaluations={} nontrivial={} exhaustive={} violations={} wall={:.1}s -> {}",
+        "{} {}: states={} transitions={} evaluations={} nontrivial={} exhaustive={} violations={} known-finding-cases={} wall={:.1}s -> {}",
         ev.prop,
         ev.tier,
         ev.states,
@@ -385,6 +389,7 @@ pub fn conclude(ev: &Evidence, rep: &Reporter) -> i32 {
         ev.nontrivial,
         ev.exhaustive,
         rep.nviol.load(Ordering::Relaxed),
+        rep.nknown.load(Ordering::Relaxed),
         ev.start.elapsed().as_secs_f64(),
         if code == 0 { "OK" } else { "VIOLATION" }
     );
